@@ -98,6 +98,25 @@ Fixpoint jsort (j : json) : json :=
   | _ => j
   end.
 
+(* the field-sorted form of a type: what survives json.dumps(sort_keys=True) of its encoding.  Two types with
+   the same canon differ only in the order in which TypedDicts list their fields. *)
+Fixpoint canon (t : ty) : ty :=
+  match t with
+  | TAny | TCls _ | TCallable | TFwd _ => t
+  | TType x => TType (canon x)
+  | TList x => TList (canon x)
+  | TSet x => TSet (canon x)
+  | TIterator x => TIterator (canon x)
+  | TTupleVar x => TTupleVar (canon x)
+  | TDict k v => TDict (canon k) (canon v)
+  | TDefaultDict k v => TDefaultDict (canon k) (canon v)
+  | TTuple ts => TTuple (map canon ts)
+  | TUnion ts => TUnion (map canon ts)
+  | TGenerator a b c => TGenerator (canon a) (canon b) (canon c)
+  | TTypedDict r o => TTypedDict (sort_kv (map (fun f => (fst f, canon (snd f))) r))
+                                 (sort_kv (map (fun f => (fst f, canon (snd f))) o))
+  end.
+
 (* ---------- the Python objects a name can resolve to ---------- *)
 Inductive generic :=
 | GUnion | GList | GSet | GDict | GDefaultDict | GTuple | GType | GIterator | GGenerator | GCallable
